@@ -84,3 +84,15 @@ for m in CORPUS:
         m.old = "        thetas_indices = torch.where(\n            node_mask_sorted == 0,"
         m.new = "        thetas_indices = torch.where(\n            node_mask_sorted == -1,"
         m.expect = [('C08.P', 'PiecewiseConstantCoalescentGrid.log_prob::F7')]
+CORPUS += [
+    Mut('c08-piecewise-exponential-heights-in-input-order', 'torchtree/evolution/coalescent.py', '', "        ) * (internal_heights_sorted - grid0.gather(-1, indices_internals))\n", "        ) * (internal_heights - grid0.gather(-1, indices_internals))\n",
+        mode='text', expect=[('C08.O', 'PiecewiseExponentialCoalescentGrid.log_prob::internal_heights - grid0.gather')], note='the state of the tree before 730aafa'),
+    Mut('c08-linear-grid-lookups-in-input-order', 'torchtree/evolution/coalescent.py', 'PiecewiseLinearCoalescentGrid.log_prob', 'indices_node_heights = torch.bucketize(node_heights_sorted, self.grid)',
+        'indices_node_heights = torch.bucketize(node_heights, self.grid)', expect=[('C08.O', 'PiecewiseLinearCoalescentGrid.log_prob')]),
+    Mut('c08-benign-linear-grid-sorted-heights-renamed', 'torchtree/evolution/coalescent.py', 'PiecewiseLinearCoalescentGrid.log_prob', 'indices_node_heights = torch.bucketize(node_heights_sorted, self.grid)',
+        'event_heights = node_heights_sorted.clone()\nindices_node_heights = torch.bucketize(event_heights, self.grid)', benign=True),
+    Mut('c08-skyride-fixed-tree-sorted-once', 'torchtree/evolution/coalescent.py', 'PiecewiseConstantCoalescent._sorted_terms', 'heights = node_heights.expand(batch_shape + torch.Size([-1]))',
+        'heights = node_heights.reshape((1,) * len(batch_shape) + (-1,))', expect=[('C08.G', 'PiecewiseConstantCoalescent._sorted_terms::fixed-tree-expanded-to-the-batch-of-self.theta')]),
+    Mut('c08-benign-skyride-fixed-tree-expanded-with-a-tuple', 'torchtree/evolution/coalescent.py', 'PiecewiseConstantCoalescent._sorted_terms', 'heights = node_heights.expand(batch_shape + torch.Size([-1]))',
+        'heights = node_heights.expand(batch_shape + (-1,))', benign=True),
+]
